@@ -53,11 +53,18 @@ Proof. unfold bytes_ok. intros H. apply Forall_forall. intros x Hx.
 Lemma bytes_ok_repeat0 n : bytes_ok (repeat 0 n).
 Proof. apply Forall_forall. intros x Hx. apply repeat_spec in Hx. subst. unfold is_byte. lia. Qed.
 
+(* le_bytes is written with bit operations (fast to evaluate); this is what it means *)
+Lemma le_bytes_S n v : le_bytes (S n) v = v mod 256 :: le_bytes n (v / 256).
+Proof.
+  cbn [le_bytes]. change 255 with (Z.ones 8). rewrite Z.land_ones by lia.
+  rewrite Z.shiftr_div_pow2 by lia. reflexivity.
+Qed.
+
 Lemma le_bytes_length n v : List.length (le_bytes n v) = n.
 Proof. revert v. induction n as [|n IH]; intros v; cbn [le_bytes List.length]; [reflexivity|]. now rewrite IH. Qed.
 
 Lemma le_bytes_ok n v : bytes_ok (le_bytes n v).
-Proof. revert v. induction n as [|n IH]; intros v; cbn [le_bytes]; constructor.
+Proof. revert v. induction n as [|n IH]; intros v; [constructor|]. rewrite le_bytes_S. constructor.
   - unfold is_byte. apply Z.mod_pos_bound. lia.
   - apply IH. Qed.
 
@@ -68,7 +75,7 @@ Proof. unfold bytes_ok. intros H. apply Forall_forall. intros x Hx. apply in_rev
 Lemma le_bytes_le_value l : bytes_ok l -> le_bytes (List.length l) (le_value l) = l.
 Proof.
   induction 1 as [|x l Hx Hl IH]; [reflexivity|].
-  cbn [List.length le_value le_bytes]. unfold is_byte in Hx. f_equal.
+  cbn [List.length le_value]. rewrite le_bytes_S. unfold is_byte in Hx. f_equal.
   - lia.
   - replace ((x + 256 * le_value l) / 256) with (le_value l) by lia. exact IH.
 Qed.
@@ -91,18 +98,18 @@ Lemma parse_header : parse_format boot_header_format = Some (Big, [2; 4; 4; 4; 4
 Proof. reflexivity. Qed.
 
 Lemma in_range_u16 v : 0 <= v < 65536 -> in_range false 2 v = true.
-Proof. intros H. unfold in_range. change (2 ^ (8 * Z.of_nat 2)) with 65536.
+Proof. intros H. unfold in_range. change (Z.shiftl 1 (8 * Z.of_nat 2)) with 65536.
   apply andb_true_intro. split; [apply Z.leb_le|apply Z.ltb_lt]; lia. Qed.
 
 Lemma in_range_u32 v : 0 <= v < 4294967296 -> in_range false 4 v = true.
-Proof. intros H. unfold in_range. change (2 ^ (8 * Z.of_nat 4)) with 4294967296.
+Proof. intros H. unfold in_range. change (Z.shiftl 1 (8 * Z.of_nat 4)) with 4294967296.
   apply andb_true_intro. split; [apply Z.leb_le|apply Z.ltb_lt]; lia. Qed.
 
 Lemma rev_le4 v : rev (le_bytes 4 v) = be32 v.
-Proof. unfold be32. cbn [le_bytes rev app]. rewrite !Z.div_div by lia. reflexivity. Qed.
+Proof. unfold be32. rewrite !le_bytes_S. cbn [le_bytes rev app]. rewrite !Z.div_div by lia. reflexivity. Qed.
 
 Lemma rev_le2 v : rev (le_bytes 2 v) = be16 v.
-Proof. reflexivity. Qed.
+Proof. rewrite !le_bytes_S. reflexivity. Qed.
 
 Lemma swap_word_ok a b c d :
   is_byte a -> is_byte b -> is_byte c -> is_byte d -> swap_word [a; b; c; d] = Some [d; c; b; a].
